@@ -716,6 +716,42 @@ func c02Case(r *obs.Run, i int) {
 			r.Count("gff_sequences_compared", 1)
 		}
 	}
+	// the same bytes from a source that fails with an error of its own part-way: an item the reader hands out without an
+	// error before that is an item that was written, never a shortened one
+	if len(data) > 0 {
+		fsrc := newSrc(rng, data)
+		fsrc.failing, fsrc.failAt = true, rng.Intn(len(data)+1)
+		fr := gff.NewReader(fsrc)
+		for k := 0; k <= len(items); k++ {
+			f, err := fr.Read()
+			if err != nil {
+				break
+			}
+			bad := k >= len(items)
+			if !bad {
+				switch it := items[k]; it.kind {
+				case "feature":
+					g, ok := f.(*gff.Feature)
+					bad = !ok || !reflect.DeepEqual(gffNormalise(g), gffNormalise(it.f0))
+				case "region":
+					g, ok := f.(*gff.Region)
+					bad = !ok || g == nil || *g != it.reg0
+				case "sequence":
+					g, ok := f.(seq.Sequence)
+					if bad = !ok; !bad {
+						rec := seqToRec(g, false)
+						bad = rec.Name != it.sq0.id || rec.Letters != it.sq0.letters
+					}
+				}
+			}
+			if bad {
+				w["source_fails_after_bytes"] = fsrc.failAt
+				fail("record-differs", fmt.Sprintf("read from a source that fails after %d of %d bytes: item %d comes back without an error as %v", fsrc.failAt, len(data), k, f))
+				return
+			}
+		}
+		r.Count("gff_files_read_from_a_failing_source", 1)
+	}
 	// what was read is the caller's: it writes through the score pointer of one item, overwrites and extends its
 	// attribute list or its letters; every other item stays what it was
 	{
